@@ -82,6 +82,8 @@ func (r *defaultSingletonComponentRegistry) GetSingletonOrCreateByFactory(name s
 	r.logger().Tracef("create instance of singleton '%s'", name)
 	singleton, err := factory.GetComponent()
 	if err != nil {
+		//nothing of the failed attempt may stay visible: drop its early reference, its factory and the in-creation mark
+		r.RemoveSingleton(name)
 		return nil, err
 	}
 	r.logger().Tracef("singleton '%s' finished creating", name)
